@@ -14,6 +14,8 @@ def targets(rng, start, greater):
     """--set-version targets: greater, equal, PEP 440-equal but textually different, lower, malformed, empty"""
     return [("greater", greater), ("equal", start), ("respelled.0", start + ".0"), ("respelled0", "0" + start), ("prefixed", "v" + start),
             ("truncated", start[:-1]), ("junk", start + "x"), ("empty", ""), ("one", "1"), ("blank", greater + " "),
+            # a greater version with white space around it (a VERSION file passed on unstripped): PEP 440 parsing tolerates it, the pattern must not
+            ("newline", greater + "\n"), ("crlf", greater + "\r\n"), ("leading-blank", " " + greater), ("tab", greater + "\t"), ("two-lines", greater + "\n" + greater),
             ("respelled-tag", start.replace("-beta", "b0").replace("b0", "-beta") if ("beta" in start or "b0" in start) else start + "-0")]
 
 
@@ -46,7 +48,7 @@ def _update_case(job):
     (pat, cfgver, tags, tags_branch, scope, ignore, mode, arg, date, dry, idx) = job[:11]
     vcs_fault = job[11] if len(job) > 11 else None        # "fetch" / "ls_tags": the VCS command fails (remote present, fetching on)
     with drive.scratch_dir("c01") as d:
-        proj = project.Project(os.path.join(d, "p"))
+        proj = project.Project(os.path.join(d, "p"), gitfile=(idx % 4 == 3))
         fv = fakevcs.FakeVCS(os.path.join(d, "fake"))
         if vcs_fault:
             fv.set(tags=tags, tags_branch=tags_branch, status="", remote="", branches="* main 1234abc [origin/main] msg\n", fail=[vcs_fault, "ls_tags_branch"] if vcs_fault == "ls_tags" else [vcs_fault])
